@@ -37,7 +37,7 @@ func (c10) Describe() engine.Info {
 	return engine.Info{
 		Rule: "class history: MBC3 cartridge, 6..40 operations over {RAM/clock gate open/close (latches also while it is closed), latch 0, latch 1, select register 08-0C (and RAM banks), read, write (incl. seconds write and halt on/off), clock warp to k cycles before a second boundary with counters near 59/59/23/511} separated by 1..6 cycles, a fraction of a second, or 1-3 seconds. After every operation and after every elapsed span the selected register is read and compared; " +
 			"class step: the one-second step from sampled and boundary counter states through the accessor, compared with the reference step. Oracle: reference RTC (60/60/24/512 carries, sticky day carry, halt freezes counters and sub-second count, latch only on 0 then 1, masks 3F/3F/1F/FF/C1, writes set live counters, seconds write restarts the sub-second count). Signature = (operation, selected register, halted, latch state, carry level reached)." +
-			" Histories also contain bursts of OAM DMA transfers and LCD/timer/sound switches; cartridges with and without RAM, every RAM size, several ROM sizes; environment: CPU parked looping, halted or stopped.",
+			" Histories also contain bursts of OAM DMA transfers and LCD/timer/sound switches; cartridges with and without RAM, every RAM size, several ROM sizes; environment: CPU parked looping, halted or stopped. ROM sizes up to 8 MiB; floods of 254..600 consecutive latch-0 writes before the 1.",
 		Assumptions:    []string{"counter values outside 0-59/0-23 written by the guest are judged for masks only", "the clock warp is a fault injected through the verif accessor into both the emulator and the model"},
 		RequiredProbes: []string{"latch_with_gate_closed", "second_boundary_crossed", "minute_carry", "hour_carry", "day_carry", "day_overflow", "halted_span", "latch_without_low", "seconds_write", "step_cases", "dma_while_clock_runs"},
 		RealComponents: realComponents, StubComponents: stubComponents,
